@@ -1,3 +1,3 @@
-CONSTANTS Part = "all" MaxMult = 3 Rich = FALSE Check = FALSE
+CONSTANTS Part = "all" MaxMult = 3 Rich = FALSE
 SPECIFICATION Spec
 CHECK_DEADLOCK FALSE
